@@ -308,7 +308,7 @@ def run_member_joint(R, binary):
     if R.tier != "quick":
         # the two rarer refusal reasons need a node that stays in an EXPLICIT joint configuration with nothing pending (0-10 per 4 000 events)
         need += ["in-j-gate/first/refused-joint", "in-j-gate/first/refused-not-joint", "in-j-won-by-joint-quorum", "in-j-restart+config-now-joint"]
-    missing = [k for k in need if summ.get(k, 0) == 0]
+    missing = [k for k in need if summ.get(k, 0) == 0] + (["scripted-joint-split"] if agg.get("scripted-joint-split", 0) == 0 else [])
     nev = summ.get("events", 0)
     nontrivial = summ.get("in-j-apply+config", 0) + summ.get("in-j-advance+autoleave-appended", 0) + summ.get("in-j-commit-by-joint-quorum", 0) + \
         sum(v for k, v in summ.items() if k.startswith("in-j-gate/first/refused")) + summ.get("in-j-restart+config", 0)
@@ -345,12 +345,14 @@ def run_member_joint(R, binary):
         schedules=summ.get("member-joint-schedules", 0), events=nev, mismatches=len(mism) + len(unk),
         model_inputs={k[5:]: v for k, v in sorted(summ.items()) if k.startswith("in-j-")},
         proposed={k[13:]: v for k, v in sorted(agg.items()) if k.startswith("confchangev2-")}, legacy_proposed={k[11:]: v for k, v in agg.items() if k.startswith("confchange-C")},
-        autoleave_appended_by_rawnode=agg.get("autoleave-appended", 0), restarts=agg.get("restarts", 0), snapshots_restored=agg.get("snap-restored", 0),
+        autoleave_appended_by_rawnode=agg.get("autoleave-appended", 0), scripted_joint_split_prologues=agg.get("scripted-joint-split", 0), restarts=agg.get("restarts", 0), snapshots_restored=agg.get("snap-restored", 0),
         campaigns=summ.get("d:JH", 0),
         note="inputs of RHJ.handleJ by kind; +config: the node's configuration (RSJ.cfgAt of its own log at its applied index) changed, now-joint / now-simple says into what; "
              "advance+autoleave-appended: the handler's leader appended the empty ConfChangeV2 (and so did RawNode - the logs are compared); gate/first/*: what the "
              "three-reason gate did with the first conf change of a proposal message stepped on a leader; commit-by-joint-quorum / won-by-joint-quorum: decisions taken "
-             "under a joint configuration. RHJ.runJ_safe proves the four safety properties for every run of this handler")
+             "under a joint configuration; scripted_joint_split_prologues: five-node schedules that start with (1 3 4 5)&&(1 2 3), 2 and 3 cut off, a proposal acknowledged and a candidate "
+             "supported by a majority of the incoming half only (neither may succeed - a decision that looked at one half only is a lock-step mismatch: checked with two mutants of "
+             "quorum/joint.go). RHJ.runJ_safe proves the four safety properties for every run of this handler")
     for k, sv in enumerate(safety[:2]):
         hdr, prefix = schedule_of_line(lines, sv[0])
         f = hdr.split()
